@@ -285,6 +285,8 @@ def gen_scenario(rng, sid, dialect_p=0.3, wide=False) -> Scenario:
                         defaults[fn] = ("list", [("int", 1), ("int", 2)]) if ft[1] == ("int",) and rng.random() < 0.5 else ("list", [])
                     elif ft[0] == "dict":
                         defaults[fn] = ("dict", [])
+        if not wide and defaults and "omit_default" not in extra and rng.random() < 0.5:
+            extra["omit_default"] = "True"      # a class with defaults usually asks for them to be left out
         if sc.dialect is not None or extra or sc.flags:
             own_config = True
         else:
